@@ -27,17 +27,20 @@ def needIdent (d : Data) (what : String) : W Str :=
   | some i => pure i
   | none => throw (what ++ ": no EDIF.identifier")
 
+/-- `obj.get("EDIF.rename", False) is False` negated -/
+def renameFlagOf (d : Data) : Bool :=
+  match d.get? (S "EDIF.rename") with
+  | some (.bool false) => false
+  | some _ => true
+  | none => false
+
 /-- `_get_name_string_` / `_output_name_of_object_` -/
 def nameSExp (d : Data) (what : String) : W SExp := do
   let ident ← needIdent d what
-  let renameFlag := match d.get? (S "EDIF.rename") with
-    | some (.bool false) => false
-    | some _ => true
-    | none => false
   match d.get? kNAME with
   | none => pure (.atom ident)
   | some (.str n) =>
-    if n = ident ∧ !renameFlag then pure (.atom ident)
+    if n = ident ∧ renameFlagOf d = false then pure (.atom ident)
     else pure (.list [A "rename", .atom ident, qtok n])
   | some _ => throw (what ++ ": name is not a string")
 
@@ -58,6 +61,14 @@ def portSExp (p : CPort) : W SExp := do
   else
     pure (.list ([A "port", nm] ++ dir))
 
+/-- the typed value of `_output_property_`: str → string, bool → boolean, anything else → integer -/
+def valSExp (value : Val) : W SExp :=
+  match value with
+  | .str s => pure (.list [A "string", qtok s])
+  | .bool b => pure (.list [A "boolean", .list [A (if b then "True" else "False")]])
+  | .int i => pure (.list [A "integer", .atom (intStr i)])
+  | _ => throw "property value type"
+
 /-- `_output_property_` -/
 def propSExp (v : Val) : W SExp :=
   match v with
@@ -67,12 +78,7 @@ def propSExp (v : Val) : W SExp :=
       let nm : SExp := match Data.get? kv (S "original_identifier") with
         | some (.str o) => .list [A "rename", .atom ident, qtok o]
         | _ => .atom ident
-      let tv : W SExp := match value with
-        | .str s => pure (.list [A "string", qtok s])
-        | .bool b => pure (.list [A "boolean", .list [A (if b then "True" else "False")]])
-        | .int i => pure (.list [A "integer", .atom (intStr i)])
-        | _ => throw "property value type"
-      do let t ← tv; pure (.list [A "property", nm, t])
+      do let t ← valSExp value; pure (.list [A "property", nm, t])
     | _, _ => throw "property without identifier/value"
   | _ => throw "property is not a dictionary"
 
@@ -133,22 +139,24 @@ def pinSExp (libs : List CLib) (d : CDef) (pin : CPin) : W SExp :=
 def bitIdent (ident : Str) (idx : Nat) : Str := ident ++ '_' :: natStr idx ++ ['_']
 def bitName (name : Str) (idx : Nat) : Str := name ++ '[' :: natStr idx ++ [']']
 
+/-- one `(net …)`: wire `k` of cable `c` (`single` = scalar one-wire cable, written under its own name) -/
+def netSExp (libs : List CLib) (d : CDef) (c : CCable) (ident : Str) (single : Bool) (w : List CPin) (k : Nat) :
+    W SExp := do
+  let nm ← (if single then nameSExp c.data "cable" else
+    let idx := k + c.lower
+    let bi := bitIdent ident idx
+    let base := match nameOf c.data with
+      | some n => n
+      | none => bi
+    pure (.list [A "rename", .atom bi, qtok (bitName base idx)]) : W SExp)
+  let pins ← w.mapM (pinSExp libs d)
+  pure (.list [A "net", nm, .list (A "joined" :: pins)])
+
 /-- `_output_cable_`: one `(net …)` per wire -/
 def cableSExps (libs : List CLib) (d : CDef) (c : CCable) : W (List SExp) := do
   let ident ← needIdent c.data "cable"
-  let single := c.wires.length = 1 ∧ !c.isArray
-  let go : List (List CPin) → Nat → W (List SExp) := fun ws k0 =>
-    (ws.zipIdx k0).mapM fun (w, k) => do
-      let nm ← (if single then nameSExp c.data "cable" else
-        let idx := k + c.lower
-        let bi := bitIdent ident idx
-        let base := match nameOf c.data with
-          | some n => n
-          | none => bi
-        pure (.list [A "rename", .atom bi, qtok (bitName base idx)]) : W SExp)
-      let pins ← w.mapM (pinSExp libs d)
-      pure (.list [A "net", nm, .list (A "joined" :: pins)])
-  go c.wires 0
+  let single := decide (c.wires.length = 1) && !c.isArray
+  (c.wires.zipIdx).mapM fun (w, k) => netSExp libs d c ident single w k
 
 /-- `_output_definition_` -/
 def defSExp (libs : List CLib) (d : CDef) : W SExp := do
